@@ -4,10 +4,10 @@
      2 float            [tag; mantissa; exponent]            (TdFloat.sf_code)
      3 Duration         [days; seconds; microseconds; milliseconds; minutes; hours; weeks; years; months]  (integer constructor arguments)
      4 plain timedelta  [N microseconds]
-     5 Interval         [delta microseconds]                 (end - start of two native datetimes)
+     5 Interval         [delta microseconds; absolute]       (end - start of the two native datetimes as given; absolute <> 0: Interval(start, end, absolute=True))
    Result encoding: 0 :: kind :: values (normal), 1 :: [exn code] (raise), 9 :: [] (bad call).
    Result kinds: 1 Duration (dur_obs) | 2 int | 3 float | 4 (int, Duration) | 5 plain timedelta (d, s, us) | 6 (int, plain timedelta)
-                 | 7 bool | 8 triple | 15 NotImplemented (in a history: no pendulum operand)
+                 | 7 bool | 8 triple | 12 Interval (dur_obs, absolute; ivl_unop only) | 15 NotImplemented (in a history: no pendulum operand)
    history: the outcomes of all steps, each preceded by its length. *)
 From Coq Require Import ZArith List Bool.
 From Coq Require Import Floats.SpecFloat.
@@ -21,7 +21,7 @@ Definition decode (kind : Z) (a : list Z) : result value :=
   | 2, [t; m; e; _; _; _; _; _; _] => Ok (VFloat (sf_decode t m e))
   | 3, [d; s; us; ms; mi; h; w; y; mo] => bind (duration_new d s us ms mi h w y mo) (fun x => Ok (VDur x))
   | 4, [n; _; _; _; _; _; _; _; _] => if td_in_range n then Ok (VTd n) else Raise E_OverflowError
-  | 5, [n; _; _; _; _; _; _; _; _] => bind (interval_new n) (fun x => Ok (VIvl x))
+  | 5, [n; ab; _; _; _; _; _; _; _] => bind (interval_new_abs n (negb (ab =? 0))) (fun x => Ok (VIvl x))
   | _, _ => Raise E_Exception
   end.
 
@@ -76,6 +76,22 @@ Definition dispatch_divisor (k : Z) (a : list Z) : list Z :=
   | Raise e => [1; exn_code e]
   end.
 
+(* unary operators on an Interval(start, start + delta, absolute): -i and abs(i) are Interval's own (results: Intervals), +i and bool(i) are
+   inherited from timedelta (on the native value) *)
+Definition ivl_res (r : result dur) (absolute : bool) : list Z :=
+  match r with Ok d => 0 :: 12 :: dur_obs d ++ [Z.b2z absolute] | Raise e => [1; exn_code e] end.
+
+Definition dispatch_ivl_unop (m delta ab : Z) : list Z :=
+  let a := negb (ab =? 0) in
+  match interval_new_abs delta a with
+  | Raise e => [1; exn_code e]
+  | Ok i =>
+      if m =? 3 then ivl_res (interval_neg delta a) a
+      else if m =? 9 then ivl_res (interval_abs delta a) true
+      else if (m =? 16) || (m =? 18) then of_res (unop m (VDur i))
+      else [9]
+  end.
+
 Definition dispatch (fn : Z) (args : list Z) : list Z :=
   match fn, args with
   | 1 (* binop *), [m; k1; a1; a2; a3; a4; a5; a6; a7; a8; a9; k2; b1; b2; b3; b4; b5; b6; b7; b8; b9] =>
@@ -96,5 +112,6 @@ Definition dispatch (fn : Z) (args : list Z) : list Z :=
       match duration_new_fsec (sf_decode t m e) y mo with Ok d => 0 :: dur_obs d | Raise ex => [1; exn_code ex] end
   | 9 (* history *), a => dispatch_history a
   | 10 (* divisor_us *), [k; a1; a2; a3; a4; a5; a6; a7; a8; a9] => dispatch_divisor k [a1; a2; a3; a4; a5; a6; a7; a8; a9]
+  | 11 (* ivl_unop *), [m; n; ab] => dispatch_ivl_unop m n ab
   | _, _ => [9]
   end.
